@@ -759,6 +759,14 @@ def check_C12(ctx):
     from props import judge_sentences
     st_small = judge_sentences(ctx, small, res_small, "C12")
     ctx.stream("small scope: required env-backed options and --", 0, **st_small)
+    # a `--` written in the spec inside repetitions and choices next to environment-satisfied options: the option is satisfied
+    # by its environment value again AFTER the `--` took effect (the same states are entered a second time)
+    from props import dd_env_cases
+    dde = dd_env_cases(ctx, ctx.scale(8000, 80000))
+    number(dde, start=len(cases) + len(small))
+    res_dde = correspond(ctx, dde, ["outcome", "trace", "values"], "a -- of the spec between environment-satisfied options")
+    st_dde = judge_sentences(ctx, dde, res_dde, "C12")
+    ctx.stream("a -- of the spec between environment-satisfied options", 0, **st_dde)
     # groups with environment-backed members on lines where the scan for a member STOPS at a token that another member
     # consumes later (folded tokens carrying '=', a dash in a cluster, a valued option spelled without value): D8
     gd8 = [gen.mkopt("strings", "o", env="VE_O", sbu=True), gen.mkopt("custom", "a", custom=dict(gen.CUSTOM_FLAG), env="VE_A", sbu=True),
